@@ -218,7 +218,7 @@ def meta(tier):
                 'instructions, mnemonic / macro / register := keyword (each keyword, lower and upper case for mnemonics), macro := '
                 'instruction name, undeclared operand set (instruction and macro), undeclared register, no register declared at all (empty / deleted / null section), count := len+-1, an explicitly listed combination with one operand too few / too many, inverted '
                 'numeric_bytecode range, zone end := 2^bits, start := end+1, start := -1; (c) min_version := x.y.z[pre] over '
-                'x in {0,1}, y,z in {0,2,3,4,5,9,10,30}, pre in {none,a1,b1,b2}; (d) #require "<name> <op> <v>" over ISA version x '
+                'x in {0,1}, y,z in {0,2,3,4,5,9,10,30}, pre in {none,a1,b1,b2}; (d) #require "<name> <op> <v>" over 3 language names (with hyphen, period, underscore) x ISA version x '
                 '5 operators x an 8-version pool whose numeric and lexical orders differ x {matching, other} name; '
                 'non-trivial = every fault / grid point (each is a distinct definition or line)',
         'bounds': {'keywords': KEYWORDS, 'running_version': RUNNING, 'format_floor': FLOOR},
@@ -286,21 +286,22 @@ def shard(acc, tier, idx, n):
         load(acc, isa, False, ok, f'min_version {v} (running {RUNNING}, floor {FLOOR})', 'min-version')
     # ---- (d) #require ----------------------------------------------------------------------------------------------
     pool = ['0.9.0', '0.10.0', '1.2.3', '1.2.10', '1.10.0', '2.0.0', '1.2.3b1', '10.0.0']
-    for isa_v, op, req_v, name_ok in itertools.product(pool, ('==', '>=', '<=', '>', '<'), pool, (True, False)):
+    names = [('lang-x', 'lang-y'), ('acme.cpu16', 'acme.cpu17'), ('my_cpu.v2-b', 'my_cpu')]     # (the language, another language)
+    for isa_v, op, req_v, name_ok, (lang_ok, lang_other) in itertools.product(pool, ('==', '>=', '<=', '>', '<'), pool, (True, False), names):
         ctr += 1
         if ctr % n != idx:
             continue
-        isa = probe_isa(16, 'little', name='lang-x', version=isa_v)
+        isa = probe_isa(16, 'little', name=lang_ok, version=isa_v)
         a, b = vkey(isa_v), vkey(req_v)
         sat = {'==': a == b, '>=': a >= b, '<=': a <= b, '>': a > b, '<': a < b}[op]
-        lang = 'lang-x' if name_ok else 'lang-y'
+        lang = lang_ok if name_ok else lang_other
         src = f'#require "{lang} {op} {req_v}"\n    .byte 1\n'
         load(acc, isa, False, sat and name_ok, f'#require "{lang} {op} {req_v}" against ISA version {isa_v}', 'require', src=src)
-    for name_ok in (True, False):
+    for name_ok, (lang_ok, lang_other) in itertools.product((True, False), names):
         ctr += 1
         if ctr % n == idx:
-            isa = probe_isa(16, 'little', name='lang-x', version='1.2.3')
-            src = f'#require "{"lang-x" if name_ok else "lang-y"}"\n    .byte 1\n'
+            isa = probe_isa(16, 'little', name=lang_ok, version='1.2.3')
+            src = f'#require "{lang_ok if name_ok else lang_other}"\n    .byte 1\n'
             load(acc, isa, False, name_ok, 'bare #require', 'require', src=src)
 
 
